@@ -86,7 +86,7 @@ def build(job):
     mons = [OutcomeMonitor(adm), ExecOnceMonitor(),
             ExecCountMonitor(ref_ledger, ref_max=rex.ref_max, ref_status=rex.fifo_status)]
     return Explorer(w, workload, mons, job.get("budget"), max_states=job.get("max_states", 200000),
-                    time_cap=job.get("time_cap", 1500), sweep_at_quiescence=False)
+                    time_cap=job.get("time_cap", 600), sweep_at_quiescence=False)
 
 
 def run_e2(job):
@@ -123,7 +123,7 @@ def run_e3(job):
     spec, skip, scripts = E3_SCEN[job["scenario"]]
     workload = make_workload(spec)
     s = run_engine_scenario(workload, skip, scripts, e3_oracle, job["bound"], shard=job.get("shard"),
-                            time_cap=job.get("time_cap", 1200), extra_scripts=["recovery"])
+                            time_cap=job.get("time_cap", 600), extra_scripts=["recovery"])
     viols, seen = [], set()
     for v in s.pop("_violations"):
         v["signature"] = f"e3:{v['sig']}@{job['scenario']}"
